@@ -89,7 +89,7 @@ def main():
     want = ["SECCOMP_SET_MODE_STRICT", "SECCOMP_SET_MODE_FILTER", "SECCOMP_FILTER_FLAG_TSYNC", "SECCOMP_FILTER_FLAG_LOG",
             "SECCOMP_FILTER_FLAG_TSYNC_ESRCH",
             "SECCOMP_RET_KILL_PROCESS", "SECCOMP_RET_KILL_THREAD", "SECCOMP_RET_TRAP", "SECCOMP_RET_ERRNO", "SECCOMP_RET_USER_NOTIF",
-            "SECCOMP_RET_TRACE", "SECCOMP_RET_LOG", "SECCOMP_RET_ALLOW", "PR_SET_NO_NEW_PRIVS", "EPERM", "ENOSYS", "EINVAL", "EACCES",
+            "SECCOMP_RET_TRACE", "SECCOMP_RET_LOG", "SECCOMP_RET_ALLOW", "PR_SET_NO_NEW_PRIVS", "PR_SET_SECCOMP", "EPERM", "ENOSYS", "EINVAL", "EACCES",
             "__X32_SYSCALL_BIT", "SECCOMP_RET_DATA", "SECCOMP_RET_ACTION_FULL"]
     for w in want:
         v = evalc(env.get(w, ""), env) if w in env else None
